@@ -580,6 +580,24 @@ func c06SessionFormats(w *core.Worker) {
 			w.Inconclusive(err.Error())
 			return
 		}
+		// the same texts are first compared in this process under another format of the session (a different session, as a
+		// library user or the shell would have them one after the other): what a text is depends on the formats in force now
+		if s0, e0 := core.NewSess(core.SessOpts{Dir: w.Work}); e0 == nil {
+			s0.Exec("SET @@DATETIME_FORMAT TO '%H::%i::decoy';")
+			for _, a := range f.pool {
+				s0.Exec(fmt.Sprintf("SELECT (%s) = (%s), (%s) < (%s);", a, f.pool[0], a, f.pool[len(f.pool)-1]))
+			}
+			s0.Exec("REMOVE '%H::%i::decoy' FROM @@DATETIME_FORMAT; ADD " + core.SQLStr(f.format) + " TO @@DATETIME_FORMAT;")
+			for _, pr := range f.same {
+				res := s0.Exec(fmt.Sprintf("SELECT (%s) = (%s);", pr[0], pr[1]))
+				if res.Err == nil && len(res.Views) == 1 {
+					if v, ok := ternCell(res.Views[0].Rows[0][0]); ok && v != 1 {
+						w.Violation("ladder:=:session-format", fmt.Sprintf("after the session's datetime format was replaced by %s: (%s) = (%s) is %s although both denote one instant", f.format, pr[0], pr[1], ternName(v)), c06Replay{A: pr[0], B: pr[1], Expr: "REMOVE / ADD @@DATETIME_FORMAT " + f.format})
+					}
+				}
+			}
+			s0.Close()
+		}
 		s.Exec("SET @@DATETIME_FORMAT TO " + core.SQLStr(f.format) + ";")
 		ev := func(a, b string) ([6]int8, bool) {
 			var out [6]int8
